@@ -517,8 +517,37 @@ Section Parser.
 
   Definition parse_expr_tokens (ts : list token) : option expr := top (p_expr (fuel_for ts) ts).
   Definition parse_source_tokens (ts : list token) : option source := top (p_source (fuel_for ts) ts).
-  Definition parse_lql_tokens (ts : list token) : option lql := top (p_lql (fuel_for ts) ts).
+
+  (* ParseLql after the grammar has run. The grammar accepts a statement keyword with nothing behind it and
+     keeps no trace of it (LNone: every member nil). Variant [bare = true] is ParseLql before the repair: it
+     returned that statement. The code's ParseLql ([code_bare_keyword_accepted] below): when no member is set,
+     `strings.EqualFold(strings.TrimSpace(lql), "SELECT")` decides -- a bare SELECT is &Select{}, anything else
+     is an error. Seen from the tokens (blanks are skipped by the lexer, a Keyword token carries the matched
+     text): the text is one token of the Keyword class spelling SELECT. A quoted 'SELECT' is a String token that
+     the literal "SELECT" of the grammar matches by value, so it reaches this point too -- and is rejected. *)
+  Definition empty_select : select := Select None None None None None None None.
+  Definition lql_post (bare : bool) (ts : list token) (l : lql) : option lql :=
+    match l with
+    | LNone =>
+        if bare then Some LNone
+        else match ts with
+             | [Tok TKeyword v] => if fold_eq v (B "SELECT") then Some (LSelect empty_select) else None
+             | _ => None
+             end
+    | _ => Some l
+    end.
+  Definition parse_lql_tokens_v (bare : bool) (ts : list token) : option lql :=
+    match top (p_lql (fuel_for ts) ts) with
+    | Some l => lql_post bare ts l
+    | None => None
+    end.
 End Parser.
+
+(* the variant of the code: a keyword-only text is no longer an (empty) statement *)
+Definition code_bare_keyword_accepted : bool := false.
+Definition parse_lql_tokens (parse_tags : bytes -> option tagset) (parse_time : bytes -> option Z)
+  (parse_size : bytes -> option N) : list token -> option lql :=
+  parse_lql_tokens_v parse_tags parse_time parse_size code_bare_keyword_accepted.
 
 (* lql.ParseSource / lql.ParseExpr seen from the tokens: no token at all stands for the empty text,
    which means "no condition" *)
@@ -535,11 +564,12 @@ Section Text.
   Variable parse_size : bytes -> option N.
 
   (* lql.ParseLql *)
-  Definition parse_lql_text (text : bytes) : option lql :=
+  Definition parse_lql_text_v (bare : bool) (text : bytes) : option lql :=
     match tokenize unq text with
-    | Some ts => parse_lql_tokens parse_tags parse_time parse_size ts
+    | Some ts => parse_lql_tokens_v parse_tags parse_time parse_size bare ts
     | None => None
     end.
+  Definition parse_lql_text : bytes -> option lql := parse_lql_text_v code_bare_keyword_accepted.
   (* lql.ParseExpr / lql.ParseSource: the empty text is "nothing" (outer None = error) *)
   Definition parse_expr_text (text : bytes) : option (option expr) :=
     match text with
